@@ -330,7 +330,7 @@ func sequential(r *vh.Run, c cfg, nHist, maxSteps int) {
 		for _, s := range streams {
 			s.Close()
 		}
-		if h == 0 {
+		if h == 0 && c.GetSSE && !c.PostSSE { // one sample history per mode: the evidence file keeps six samples in all
 			r.Sample(map[string]interface{}{"part": "sequential", "config": c.String(), "history": hist})
 		}
 		// leave no sessions behind for the next history
@@ -788,6 +788,10 @@ func main() {
 		idChild()
 		return
 	}
+	if vh.ChildRole() == "c04-probe-ref" {
+		probeRefChild()
+		return
+	}
 	kit.Silence()
 	r := vh.NewRun("C04", "exploration")
 	var wg sync.WaitGroup
@@ -798,9 +802,10 @@ func main() {
 	wg.Wait()
 	concurrent(r, r.Pick(500, 5000))
 	statelessIndependence(r, r.Pick(500, 5000))
+	statelessState(r, r.Pick(600, 6000))
 	csprng(r, r.Pick(200, 2000))
 	uniqueness(r, r.Pick(4000, 100000))
-	r.Finish("12 configurations {stateful, stateless, sessions disabled} x GET-SSE on/off x POST-SSE on/off: seeded random histories (<= 25 steps) over {initialize, request, notification, response-post, GET, stream-close, DELETE} x id classes {none, live, deleted, never-issued, foreign-made}, each step compared with the reference state machine (status, session header) and Server.GetActiveSessions() with the model's live set; concurrent histories (3-5 workers, <= 45 ops) of init/use/DELETE/list checked for linearizability with porcupine; stateless answers replayed after seeded prefixes; ids: uniqueness, visible ASCII, >= 128 bits, and traced to getrandom(2) buffers of the server process with strace. Distinct = (configuration, op, id class, status) seen conforming, plus concurrent history shapes.",
+	r.Finish("12 configurations {stateful, stateless, sessions disabled} x GET-SSE on/off x POST-SSE on/off: seeded random histories (<= 25 steps) over {initialize, request, notification, response-post, GET, stream-close, DELETE} x id classes {none, live, deleted, never-issued, foreign-made}, each step compared with the reference state machine (status, session header) and Server.GetActiveSessions() with the model's live set; concurrent histories (3-5 workers, <= 45 ops) of init/use/DELETE/list checked for linearizability with porcupine; stateless answers replayed after seeded prefixes; stateless answers of handlers that keep state: HTTP context function, middleware, tool / prompt / resource handlers, the three list filters and a notification handler read the session of GetSessionFromContext and ClientSessionFromContext (id, times, data), the context values and the server handle, report what they found in the answer and then write the request nonce and visit counters; sequential histories (one / several clients, one server / four stateless Server instances of the process, session-disabled servers, JSON and POST-SSE answers, non-probe writers in between), groups of 2-4 requests parked on a gate after writing while complete requests run, and free-running groups of 3-8; every probe answer, normalised (own nonce, own server name, never-seen session id, times classified against the request window), must equal the answer of the same request as first request of a fresh server in a fresh process (24 reference children), and no session id may be seen by two requests when fresh processes hand out different ids; ids: uniqueness, visible ASCII, >= 128 bits, and traced to getrandom(2) buffers of the server process with strace. Distinct = (configuration, op, id class, status) seen conforming, plus concurrent history shapes.",
 		[]string{"CSPRNG clause: ids are assumed to be a reversible text encoding (hex/base64/uuid) of kernel CSPRNG bytes; an id derived by hashing would be reported",
-			"the hourly expiry sweep is not driven", "notification histories use a method without server-side handler (notifications/verif)"})
+			"the hourly expiry sweep is not driven", "stateless-state: the session-disabled configuration is judged like the stateless one (handlers get no session there; the statement names only stateless mode)", "stateless-state: session times without a monotonic reading are not ordered against the request window (counted, not judged)", "notification histories use a method without server-side handler (notifications/verif)"})
 }
